@@ -69,7 +69,7 @@ def check_alternation(run, A):
         run.check(ok, 'R-LOOP', f'{short}: M-step receives this iteration\'s posterior', fn.loc(L.m_call.node), '', why, construct=f'R-LOOP::{fn.qual}::affiliation-flow')
         # model starts as None (or the given model) so that the first iteration uses the initial affiliation
         inits = [strip_views(x) for x in unwrap_gamma(L.model_init)]
-        ok_init = all((x.op == 'const' and x.args[0] is None) or (x.op == 'param' and x.args[0] == 'initialization') for x in inits)
+        ok_init = all((x.op == 'const' and x.args[0] is None) or (x.op == 'param' and x.args[0] == 'initialization') or x.op == 'raise' for x in inits)
         run.check(ok_init, 'R-LOOP', f'{short}: model variable starts as None / the given model', fn.loc(), '',
                   'the model variable is initialised with something else than None or the initialization argument', construct=f'R-LOOP::{fn.qual}::model-init')
     run.floor('EM loops recognised', n, 7)
@@ -86,10 +86,10 @@ def affiliation_structure(L, aff, e_call):
         if mentions(t, e_call):
             return False, 'affiliation is taken from the E-step unconditionally'
         return False, 'affiliation handed to the M-step is not connected to the E-step'
-    cond = t.args[0]
-    if not (cond.op == 'cmp' and strip_views(cond.args[1]) is M and cond.args[0] in ('IsNot', 'Is')):
+    sp = LP.split_by_iteration(L, t)
+    if sp is None:
         return False, 'affiliation is selected by a condition other than `model is not None`'
-    then_b, else_b = (t.args[1], t.args[2]) if cond.args[0] == 'IsNot' else (t.args[2], t.args[1])
+    then_b, else_b = sp
     leaves_then = unwrap_gamma(then_b)
     if not all(mentions(x, e_call) for x in leaves_then):
         return False, 'with a model present, the affiliation is not (derived from) the E-step result'
@@ -109,7 +109,12 @@ def affiliation_structure(L, aff, e_call):
                 continue
         return False, f'the E-step result is transformed by something else than the inline aligner before the M-step ({n})'
     leaves_else = [strip_views(x) for x in unwrap_gamma(else_b)]
-    if not all(x.op == 'mu' and x.extra[0] is L.loop for x in leaves_else):
+    def start_value(x):
+        # the value carried into the loop, or a loop-invariant start value used directly in the first iteration
+        if x.op == 'mu':
+            return x.extra[0] is L.loop
+        return not mentions(x, e_call) and not any(y.op in ('mu', 'elem') and (y.extra[0] if y.op == 'mu' else y.extra) is L.loop for y in walk_terms(x, into_mu=False))
+    if not all(start_value(x) for x in leaves_else):
         return False, 'without a model, the affiliation is not the initial / carried value'
     return True, ''
 
